@@ -25,7 +25,7 @@ pub fn tau() -> f64 {
     if IS_F32 {
         2.0e-3
     } else {
-        1.0e-9
+        std::env::var("VERIF_TAU").ok().and_then(|s| s.parse().ok()).unwrap_or(1.0e-11)
     }
 }
 /// largest magnitude below which integer arithmetic is exact
